@@ -28,12 +28,33 @@
 namespace celma { namespace common {
 
 
+namespace detail {
+
+
+/// Holds the flag of a ManagedThread. It is a base class that is listed before
+/// std::thread, so that the flag exists (and is \c false) before the thread is
+/// started by the constructor of std::thread: The thread sets the flag, a
+/// member variable of ManagedThread would be initialised only afterwards.
+/// @since  x.y.z, 29.09.2026
+class ManagedThreadFlag
+{
+protected:
+   /// Flag, set by the thread before the thread function is executed, cleared
+   /// when the thread function returnes, i.e. finished its work.
+   std::atomic< bool>  mActive{ CELMA_VERIF_SYNC_INIT( "managed.init", false)};
+
+}; // ManagedThreadFlag
+
+
+} // namespace detail
+
+
 /// Small helper class that provides the information if the thread is still
 /// active or if it finished its work.<br>
 /// When this object is destroyed, it calls \c join(), so the calling
 /// application does not need to do that.
 /// @since  012, 19.01.2017
-class ManagedThread final: public std::thread
+class ManagedThread final: private detail::ManagedThreadFlag, public std::thread
 {
 public:
    /// Constructor, creates the thread which immediately starts its work.
@@ -67,11 +88,6 @@ public:
 
    // move-assignment is also not allowed
    ManagedThread& operator =( ManagedThread&&) = delete;
-
-private:
-   /// Flag, set by the thread before the thread function is executed, cleared
-   /// when the thread function returnes, i.e. finished its work.
-   std::atomic< bool>  mActive{ CELMA_VERIF_SYNC_INIT( "managed.init", false)};
 
 }; // ManagedThread
 
